@@ -307,6 +307,34 @@ def check(case: t.Any, ctx: Ctx) -> None:
         raise
     if r is not None:
         ctx.fail('compositional', r[0], f"T = {nd.render()[:300]}; v = {short(v, 200)}; {r[1]}")
+        return
+    # the tree is a function of (T, v): diagnosing other values with the same type object afterwards neither changes the tree
+    # already handed out nor the tree the same value gets when it is diagnosed again
+    if len(case) > 3 and case[3]:
+        import copy
+        try:
+            kept = copy.deepcopy(tr)
+        except Exception:
+            return
+        for v2 in case[3]:
+            try:
+                own_tree(nd, v2)
+            except Exception:
+                pass
+        ctx.evaluated(2)
+        d1 = tree_eq(tr, kept)
+        if d1 is not None:
+            ctx.fail('tree-is-a-value', 'changed-afterwards', f"T = {nd.render()[:300]}; v = {short(v, 150)}; after diagnosing {[short(x, 60) for x in case[3]]} with the same type "
+                     f"the tree handed out earlier has changed: {d1}")
+            return
+        try:
+            again = own_tree(nd, v)
+        except Exception:
+            again = None
+        d2 = tree_eq(again, kept) if again is not None else 'the value is now accepted / raises'
+        if d2 is not None:
+            ctx.fail('tree-is-a-value', 'depends-on-earlier-diagnoses', f"T = {nd.render()[:300]}; v = {short(v, 150)}; diagnosed again after {[short(x, 60) for x in case[3]]} "
+                     f"the tree differs from the first: {d2}")
 
 
 @st.composite
@@ -317,9 +345,17 @@ def multi_fault_cases(draw, specs: st.SearchStrategy[t.Any]) -> t.Any:
     if draw(st.booleans()):
         v = gen.reshape_all(draw, v)
     names = nd.names()
+    base = v
     for _ in range(draw(st.integers(1, 4))):
         v = gen.mutate(draw, v, names)
-    return [spec, v, 'mutated']
+    # further (mostly failing) values for the same type object: other mutations of the same valid value
+    more = []
+    for _ in range(draw(st.integers(0, 2))):
+        w = base
+        for _ in range(draw(st.integers(1, 2))):
+            w = gen.mutate(draw, w, names)
+        more.append(w)
+    return [spec, v, 'mutated', more]
 
 
 # ---- the key-naming relation of the tree is the one conversion uses --------------------------------------------------
